@@ -186,7 +186,7 @@ META = {
     "C05": {
         "level": "fault_enumeration",
         "design_ref": "DESIGN.md §4 C05",
-        "technique": "property-based fault/crash-point enumeration: generated scripted test bodies with one panic source (10 kinds incl. interposer-injected allocation and mprotect failures) at every generated position, optionally caught in scope; oracle = script model of the number of panics + pristine bytes after the unwind + hook-time snapshot of the refused target + follow-up thread under a deadline",
+        "technique": "property-based fault/crash-point enumeration: generated scripted test bodies with one panic source (12 kinds incl. interposer-injected allocation and mprotect failures: first call, every call on the target's page, only the second page of a page-straddling entry) at every generated position, optionally caught in scope; oracle = script model of the number of panics + pristine bytes after the unwind + hook-time snapshot of the refused target + follow-up thread under a deadline",
         "text": "2.4*10^3 (quick) / 1.2*10^5 (thorough) generated cases of 1..5 consecutive lifetimes (many per process): for every source kind and position the number of panics raised must equal the model's prediction (never two at once: an abort kills the worker and is a verdict), every function is byte-identical after the unwind, the refused target is unwritten at the very moment the panic is raised (snapshot taken in the panic hook), and afterwards a fresh thread creates an injector, installs, calls and drops within a deadline (a futex wait that outlives it is reported as an unreleased guard, any other overrun as inconclusive).",
         "note": NATIVE_NOTE + " Excluded by construction: panics inside extern C/system fakes (abort by language rule) and faults injected during restoration. A failed mprotect strands the trampoline allocated just before it; that leak is outside this statement (and outside C12, which speaks of successful installations) and is only reported in evidence.",
     },
@@ -200,14 +200,14 @@ META = {
     "C07": {
         "level": "exploration",
         "design_ref": "DESIGN.md §4 C07",
-        "technique": "metamorphic property-based testing: generated sequences of injector lifetimes evaluating the same fake!(..., times: N) expression; each lifetime must behave as if it were the only one in its process (reference model counting from zero); the same relation over every `times` arm of macro_rules! fake found in the tree, each compiled as its own binary and driven through 2-3 generated lifetimes of one call site (Hypothesis)",
+        "technique": "metamorphic property-based testing: generated sequences of injector lifetimes evaluating the same fake!(..., times: N) expression; each lifetime (ordinary, or run from tear-down code while the thread unwinds) must behave as if it were the only one in its process (reference model counting from zero); the same relation over every `times` arm of macro_rules! fake found in the tree, each compiled as its own binary and driven through 2-3 generated lifetimes of one call site (Hypothesis)",
         "text": "3*10^3 (quick) / 2*10^5 (thorough) generated sequences of 2..8 lifetimes at one of 4 call sites, any number of calls in each lifetime, N changing between lifetimes, each sequence in a fresh process (so the case is the complete history of the site's static counter).",
         "note": NATIVE_NOTE + " Two installations of the same call site alive in the *same* injector share one static counter by construction; the statement speaks of earlier installations, and only those are generated.",
     },
     "C11": {
         "level": "fault_enumeration",
         "design_ref": "DESIGN.md §4 C11",
-        "technique": "property-based fault injection: generated address-space layouts around the target (full / one free page at every offset class incl. the extremes / sparse; occupied hints answered by far fallback, MAP_FAILED or an adversarial in-range page), realised through the interposer's layout model and with the real kernel (PROT_NONE reservation with punched holes); oracle = history invariant over the mmap/munmap log + decoded entry branch",
+        "technique": "property-based fault injection: generated address-space layouts around the target (full / one free page at every offset class incl. the extremes / sparse; occupied hints answered by far fallback, MAP_FAILED or an adversarial in-range page), realised through the interposer's layout model and with the real kernel (PROT_NONE reservation with punched holes); oracle = history invariant over the mmap/munmap log + decoded entry branch + bytes and page protection of a refused target unchanged",
         "text": "1.6*10^3 (quick) / 10^5 (thorough) generated (target, layout, fallback behaviour, realisation) cases incl. targets below 128 MiB (window clipped at zero) and page-aligned targets. Success: the entry decodes to a branch into the single mapping that was kept, every other mapping obtained during the search was given back with its own address and length, and the call reaches the fake. Panic: target untouched, nothing left mapped, nothing unmapped twice. x86-64's rel32 reach exceeds the search window, so finite reach is decided for AArch64 in simulation (s2-arm64 engine when present).",
         "note": NATIVE_NOTE + " That installation succeeds whenever a free page exists is not demanded (refusal rate is reported in evidence only).",
     },
@@ -243,7 +243,7 @@ META = {
         "level": "exploration",
         "design_ref": "DESIGN.md §4 C14",
         "technique": "stateful (model-based) property-based testing: generated fake / await / re-fake / end-of-lifetime histories over a family of sibling async functions, driven by a hand-written single-poll executor on several threads; oracle = reference model of the current value per function + poll counts + evaluation and side-effect counters",
-        "text": "2.4*10^3 (quick) / 1.2*10^5 (thorough) generated histories of up to 24 operations over 11 async functions (free functions and a method, by-value and by-reference parameters, unit/scalar/heap/264-byte by-memory outputs, three functions sharing the output type u32 and two sharing String): while faked, the first poll is Ready with the latest fake's value on every executor thread, the value expression is evaluated exactly once per await, the original body does not run; every unfaked function, including same-output-type siblings of a faked one, yields its original value in two polls; after the lifetime (ended normally or by unwinding) everything is original again; an await may be made while the installation is being completed (from the interposer's flush hook). A second engine places the poll function's trampoline and a synthetic poll function at generated displacements (the async share of C01's placement engine).",
+        "text": "2.4*10^3 (quick) / 1.2*10^5 (thorough) generated histories of up to 24 operations over 11 async functions (free functions and a method, by-value and by-reference parameters, unit/scalar/heap/264-byte by-memory outputs, three functions sharing the output type u32 and two sharing String): while faked, the first poll is Ready with the latest fake's value on every executor thread, the value expression is evaluated exactly once per await, the original body does not run; every unfaked function, including same-output-type siblings of a faked one, yields its original value in two polls; after the lifetime (ended normally or by unwinding) everything is original again; an await may be made while the installation is being completed (from the interposer's flush hook), and two executor threads may await faked and unfaked functions at the same time while each value expression takes some microseconds (awaits overlap inside value expressions). A second engine places the poll function's trampoline and a synthetic poll function at generated displacements (the async share of C01's placement engine).",
         "note": NATIVE_NOTE + " The executor is single-poll and hand-written (no tokio): what is judged is the poll function the injector patches, not a runtime.",
     },
     "C12": {
